@@ -107,6 +107,10 @@ def random_circuit(rnd, nq, n, kinds=FULL, phases=(math.pi, math.pi / 2, math.pi
             gl.append(["mcx", rnd.sample(range(nq), 4)])
         elif k == "mcz" and nq >= 3:
             gl.append(["mcz", rnd.sample(range(nq), 3)])
+        elif k == "mczv" and nq >= 2:  # Z with 1..nq-1 controls
+            gl.append(["mcz", rnd.sample(range(nq), rnd.randint(2, nq))])
+        elif k == "mcxv" and nq >= 3:  # X with 2..nq-1 controls, as MCX or as MCtrl(X)
+            gl.append([rnd.choice(["mcx", "mctrlx"]), rnd.sample(range(nq), rnd.randint(3, nq))])
         elif k == "barrier":
             gl.append(["barrier", []])
     return gl
